@@ -119,6 +119,14 @@ def cur():
     return CUR
 
 
+def _rss_mb():
+    try:
+        with open("/proc/self/statm") as f:
+            return int(f.read().split()[1]) * 4096 // (1 << 20)
+    except Exception:
+        return 0
+
+
 def _assert(solver, e):
     z3.Z3_solver_assert(solver.ctx.ref(), solver.solver, e.as_ast())
 
@@ -297,6 +305,9 @@ class PathState(object):
         st.decisions += 1
         if ex.deadline is not None and time.time() > ex.deadline:
             raise Truncated()
+        if st.decisions % 2000 == 0 and _rss_mb() > ex.max_rss_mb:
+            ex.note_inconclusive("memory guard: process above %d MB" % ex.max_rss_mb)
+            raise Truncated()
         # learned implications: core (subset of the path literals) => this literal infeasible
         for pol in (True, False):
             cores = ex.learned.get(k1 if pol else -k1)
@@ -352,6 +363,7 @@ class Explorer(object):
                  yield_after=None):
         self.fn = fn
         self.yield_after = yield_after
+        self.max_rss_mb = int(os.environ.get("PYSX_MAX_RSS_MB", "3000"))
         self.defer_depth = defer_depth
         self.deferred = []
         self.max_defs = int(os.environ.get("PYSX_MAX_DEFS", "200"))
@@ -467,6 +479,10 @@ class Explorer(object):
                 break
             if self.deadline is not None and time.time() > self.deadline:
                 self.truncated = True
+                break
+            if self.stats.paths % 50 == 0 and _rss_mb() > self.max_rss_mb:
+                self.truncated = True
+                self.note_inconclusive("memory guard: process above %d MB" % self.max_rss_mb)
                 break
             if self.yield_after is not None and time.time() - t0 > self.yield_after and len(self.work) >= 2:
                 # hand the queued sub-trees back to the scheduler (work sharing between processes)
